@@ -145,8 +145,21 @@ DxsZero(e) ==
       [] e.lvl = 9  -> {7, 8, 9}
       [] e.lvl = 8  -> {5, 6}
       [] e.lvl = 12 -> IF e.tw = 1 THEN {3, 4, 5, 6, 11, 12} ELSE {5, 6, 7, 8, 11, 12}
-      [] e.lvl = 18 -> {7, 8, 9, 10, 11, 12, 16, 17, 18}
+      [] e.lvl = 18 -> IF e.tw3 = 1 THEN {4, 5, 6, 7, 8, 9, 16, 17, 18} ELSE {7, 8, 9, 10, 11, 12, 16, 17, 18}
       [] OTHER -> {}
+(* the precondition of the sparse multiplication of a level.  The sparse forms of the towers above degree 12 *)
+(* (line functions of the k = 16, 24, 48, 54 pairings) choose between two shapes by looking at the operand:  *)
+(*   fp16 = fp8[z]:  b[1][0] = 0, or else b[0][1] = 0 (b[0] a quartic-subfield multiple)                     *)
+(*   fp24 = fp8[z]/(z^3 - w):  b[2] = 0, or else b[1] = 0                                                    *)
+(*   fp48 = fp24[t]:  b[0] sparse as in fp24 with b[0][2] = 0, b[1] = b[1][1] z only                         *)
+(*   fp54 = fp18[z]/(z^3 - w):  b[1] = 0 and b[2] = (b[2][0], 0)                                             *)
+DxsZeroAt(e, S) == \A i \in S : BNorm(e.b[i]) = <<>>
+DxsPre(e) ==
+    CASE e.lvl = 16 -> DxsZeroAt(e, 9..12) \/ DxsZeroAt(e, 5..8)
+      [] e.lvl = 24 -> DxsZeroAt(e, 17..24) \/ DxsZeroAt(e, 9..16)
+      [] e.lvl = 48 -> DxsZeroAt(e, (17..32) \cup (41..48))
+      [] e.lvl = 54 -> DxsZeroAt(e, (19..36) \cup (46..54))
+      [] OTHER -> DxsZeroAt(e, DxsZero(e))
 (* positions kept by the compressed (Karabina) form: g2, g3, g4, g5 *)
 PckPos(e) ==
     CASE e.lvl = 12 -> {3, 4, 5, 6, 7, 8, 11, 12}
@@ -231,7 +244,7 @@ FpxAccept(e) ==
          \* multiplication by the non-residue that defines the next level
          [] e.f \in NorFs -> In1 /\ Ret(TMul(T, k, a, IF e.lvl = 2 THEN XI(e, ri) ELSE X3(e, ri)))
          [] e.f \in DxsFs ->
-                In2 /\ IF \A i \in DxsZero(e) : BNorm(e.b[i]) = <<>>
+                In2 /\ IF DxsPre(e)
                        THEN Ret(TMul(T, k, a, b)) ELSE e.err = 0 /\ e.code = 0
          [] e.f = "mul_unr" -> In2 /\ UnrSpec(e, ri, T, TMul(T, k, a, b))
          [] e.f = "sqr_unr" -> In1 /\ UnrSpec(e, ri, T, TMul(T, k, a, a))
@@ -413,5 +426,12 @@ FpxKnownKey(e) ==
                        T  == TowerOf(e, ri, 8)
                    IN  ~(CanonAll(e, e.c) /\ El(e, ri, T, e.c) = TMul(T, 3, El(e, ri, T, e.a), El(e, ri, T, e.b)))
             -> "C10-fp8-mul-dxs-lazy-room"
+         \* fp18_mul_dxs_basic does not look at the twist type: with a D-type cubic twist installed (K18-P354) the sparse
+         \* operand has the shape b[0] = (b00, 0, 0), b[1] = (b10, b11, 0), the routine still assumes the M-type shape
+         \* b[0] = (b00, b01, 0), b[1] = (0, b11, 0) and drops b10 (fp18_mul_dxs_lazyr, the default, handles both)
+      [] e.f = "mul_dxs_basic" /\ e.lvl = 18 /\ e.tw3 = 1 /\ Len(e.a) = 18 /\ Len(e.b) = 18 /\ Len(e.c) = 18
+                /\ e.err = 0 /\ e.code = 0 /\ e.unch /\ CanonAll(e, e.a) /\ CanonAll(e, e.b) /\ CanonAll(e, e.c)
+                /\ DxsPre(e) /\ (\E i \in 10..12 : BNorm(e.b[i]) # <<>>)
+            -> "C10-fp18-mul-dxs-basic-dtype"
       [] OTHER -> ""
 =============================================================================
